@@ -1292,7 +1292,9 @@ pub fn random_request_opts(rng: &mut Rng, nspec: usize, tweak: &dyn Fn(&mut Cfg)
     // FASTA-supplied decoys in some runs
     if rng.chance(1, 4) {
         cfg.gen_decoys = false;
-        let n = fasta.len();
+        // one run in three of these has NO decoy record at all: a target-only database, for which the rescoring
+        // model cannot be fitted and the runner's heuristic fallback score is reported (seeded C15-J)
+        let n = if rng.chance(1, 3) { 0 } else { fasta.len() };
         for i in 0..n {
             let rev: String = fasta[i].1.chars().rev().collect();
             fasta.push((format!("{}{}", cfg.decoy_tag, fasta[i].0), rev));
@@ -1709,6 +1711,15 @@ fn directed(rng: &mut Rng, which: usize) -> Option<Request> {
             },
             GenOpts { format: Some(1), nfiles: Some(2), scale: false },
         )?,
+        // target-only database: no decoy record and none generated, so the rescoring model cannot be fitted and
+        // the runner reports its heuristic fallback score, which must be finite (seeded C15-J); weak spectra are
+        // included so that poisson values below -1 occur
+        9 => random_request_with(rng, 12, &|c| {
+            c.tmt = 0;
+            c.lfq = Lfq::default();
+            c.chimera = false;
+            c.prefilter = false;
+        })?,
         _ => random_request_with(rng, 9, &|_| {})?,
     };
     // the `--parquet` second run: the chimera run (ranks > 1), both LFQ runs, all TMT runs
@@ -1718,6 +1729,15 @@ fn directed(rng: &mut Rng, which: usize) -> Option<Request> {
     match which {
         7 | 8 => {
             collide_scan_ids(&mut r)?;
+        }
+        9 => {
+            r.parquet = false;
+            r.cfg.gen_decoys = false;
+            let tag = r.cfg.decoy_tag.clone();
+            r.fasta.retain(|(a, _)| !a.contains(&tag));
+            if r.fasta.is_empty() {
+                return None;
+            }
         }
         // more files than the batch size, file count not a multiple of it (last batch is short)
         0 => {
@@ -1814,7 +1834,7 @@ pub fn gen(rng: &mut Rng, tier: Tier, emit: &mut dyn FnMut(Case)) {
     let mut made = 0;
     let mut tries = 0;
     let mut next_directed = 0usize;
-    const NDIRECTED: usize = 9;
+    const NDIRECTED: usize = 10;
     while made < n + NDIRECTED && tries < (n + NDIRECTED) * 12 {
         tries += 1;
         let nspec = 4 + rng.below(if tier == Tier::Quick { 8 } else { 30 });
@@ -1871,6 +1891,7 @@ pub fn gen(rng: &mut Rng, tier: Tier, emit: &mut dyn FnMut(Case)) {
                 .tag_if(c.semi, "semi-enzymatic")
                 .tag_if(!c.cterm, "n-terminal-enzyme")
                 .tag_if(!c.gen_decoys, "fasta-decoys")
+                .tag_if(!c.gen_decoys && !r.fasta.iter().any(|(a, _)| a.starts_with(&c.decoy_tag)), "target-only-database")
                 .tag_if(c.gen_decoys && r.fasta.iter().any(|(a, _)| a.starts_with(&c.decoy_tag)), "tagged-records-with-generated-decoys")
                 .tag_if(c.ptol.0 == 1, "precursor-da")
                 .tag_if(c.iso.0 != c.iso.1, "isotope-errors")
